@@ -19,6 +19,7 @@ All rights reserved.
 #include "simulator/queue.hpp"
 #include "simulator/handler_allocator.hpp"
 #include <functional>
+#include <cmath> // for ceil
 #include <cstdio> // for printf
 
 typedef sim::chrono::high_resolution_clock::time_point time_point;
@@ -132,8 +133,10 @@ namespace sim
 		aux::packet const& p = m_queue.front().pkt;
 		const int packet_size = int(p.buffer.size() + p.overhead);
 
+		// round up: a packet never leaves faster than the bandwidth allows, and
+		// the fractions of a backlog do not add up to extra bandwidth
 		m_last_forward += chrono::duration_cast<duration>(chrono::nanoseconds(
-			boost::int64_t(nanoseconds_per_byte * packet_size)));
+			boost::int64_t(std::ceil(nanoseconds_per_byte * packet_size))));
 
 		m_forward_timer.expires_at(m_last_forward);
 		std::weak_ptr<int> alive = m_alive;
